@@ -164,9 +164,12 @@ class SeqWorld:
                     continue
                 if any(k in st.get_dirty_keys() and st.contains_cached(k) for _l, st in wb_layers):
                     continue
-                how = ("invalidate" if kind in ("inv", "invall") else "flush" if kind == "flush"
-                       else "delete" if kind == "del" else "eviction")
-                viol.append((self.fp("dirty-discarded", f"on-{how}"),
+                if k in anyheld0 and k not in anyheld1:  # the entry left the cache during this operation
+                    how = "on-" + ("invalidate" if kind in ("inv", "invall") else "delete" if kind == "del"
+                                   else "eviction")
+                else:  # still cached (or never was) but neither dirty nor persisted
+                    how = f"unflushed-after-{kind}"
+                viol.append((self.fp("dirty-discarded", how),
                              f"{s.label()}: after {fmt_op(op)} the acknowledged write "
                              f"{k!r}={vstr(tv)} is neither in the backing store (holds {vstr(bv)}) nor a cached dirty "
                              f"entry (cached={sorted(anyheld1)}, dirty={sorted(wb_layers[0][1].get_dirty_keys())})"))
